@@ -6,7 +6,7 @@ Part A - periodic coordinate (``interpolate_dataset_along_axis`` along ``directi
 caller-declared periodic coordinate, ``interpolate_periodic(x_period=360)``, ``spectrum.interpolate({"direction":..})``):
   grid (uniform grids of 4, 8, 36 [thorough: 72] nodes x start {0, 5, 350, -170}, two non-uniform grids, descending
   grids) x layout (axis in every position of rank 1..3) x mode (linear, nearest) x data (every unit impulse, generic,
-  saw-tooth, an angular variable) x target (-1000..1000 step 7.5, every node +- {0, 360, 720}, mid/quarter points of
+  saw-tooth, an angular variable) x target (-1000..1000 step 7.5 [thorough: 2.5], every node +- {0, 360, 720}, mid/quarter points of
   the bin that spans the wrap and of every other bin, one ulp either side of the first node and of first node + 360).
   Oracle: cyclic neighbours by an independent modular search in exact rational arithmetic; value = weighted mean of
   the two cyclic neighbours; never missing; f(x) == f(x + 360) for every pair of targets 360 apart.
@@ -21,7 +21,6 @@ Part B - angular data (``*direction*`` / ``longitude`` variables and caller-decl
   of "interpolated" (linear in the angle along the shorter arc; direction of the weighted mean unit vector), within
   a derived tolerance; [0,360) for direction variables.
 """
-import math
 import traceback
 from datetime import datetime, timedelta, timezone
 from fractions import Fraction as Fr
@@ -35,7 +34,7 @@ LEVEL = "exploration"
 RULE = (
     "A: full product periodic grid (uniform n in {4,8,36[,72]} x start {0,5,350,-170}, 2 non-uniform, descending) x "
     "coordinate name {direction, longitude, caller-declared} x layout (rank 1..3, axis in every position) x mode "
-    "{linear, nearest} x data {every impulse, generic, saw-tooth, angular} x target {-1000..1000 step 7.5, every node "
+    "{linear, nearest} x data {every impulse, generic, saw-tooth, angular} x target {-1000..1000 step 7.5 [thorough 2.5], every node "
     "+-{0,360,720}, mid/quarter points of every bin incl. the wrap bin (+-360), +-1ulp at first node and first node+360}. "
     "B: full product start angle (12) x signed jump (20, |jump| != 180) x representation {[0,360), [-180,180), unwrapped} "
     "x weight {0,1/8,1/4,1/2,3/4,7/8,1} x api {along_axis by name / by declaration / nearest, interpolate_periodic x "
@@ -132,8 +131,11 @@ class PGrid:
             return big / float(min(self.width[i0], self.width[i0 - 1]))
         return big / float(self.width[i0])
 
-    def targets(self):
-        out = [("lattice", -1000.0 + 7.5 * k) for k in range(267)]
+    def targets(self, fine=False):
+        if fine:  # thorough tier: the same range on a three times finer lattice
+            out = [("lattice", -1000.0 + 2.5 * k) for k in range(801)]
+        else:
+            out = [("lattice", -1000.0 + 7.5 * k) for k in range(267)]
         for x in self.nodes:
             for s in (0.0, 360.0, -360.0, 720.0, -720.0):
                 out.append(("node", x + s))
@@ -338,7 +340,7 @@ def run_pcoord(unit):
     c = Collector()
     if g.desc:
         c.cat("descending_grid")
-    tk = g.targets()
+    tk = g.targets(fine=(tier == "thorough"))
     tvals = [t for _, t in tk]
     targets = np.array(tvals)
     m = len(tvals)
@@ -447,7 +449,7 @@ def run_pcoord(unit):
                 c.violation(dict(key0, check="range [0,360)", var="swell_direction"),
                             f"direction variable outside [0,360): {R[j][:3].tolist()} at target {tvals[j]!r}")
     c.sample({"api": "interpolate_dataset_along_axis", "periodic_coordinate": coord, "grid": g.nodes[:8],
-              "targets": tvals[:4] + tvals[267:271], "pairs_360_apart": len(pairs)})
+              "targets": tvals[:4] + tvals[-4:], "pairs_360_apart": len(pairs)})
     return c.result()
 
 
@@ -464,7 +466,7 @@ def run_periodic_fn(unit):
         for g in pgrids(tier):
             if g.n > 36:
                 continue
-            tk = g.targets()
+            tk = g.targets(fine=(tier == "thorough"))
             tvals = [t for _, t in tk]
             x = np.array(tvals)
             cond = np.array([g.cond(t) for t in tvals])
@@ -610,7 +612,6 @@ def run_angdata(unit):
         for nm in names:
             for conv in CONVS:
                 vals, jumps = series[conv]
-                vn = nm if conv == "0_360" else None
                 # one variable per (name, representation); the name must keep its key word
                 vname = f"{nm}_{conv}" if nm != "longitude" else None
                 if nm == "longitude":
